@@ -154,7 +154,7 @@ func TestSeqExhaustive(t *testing.T) {
 	s := vf.Begin(t, P, "seq-exhaustive")
 	s.SetExhaustive()
 	alpha := alphabet(2, 3)
-	depth := vf.N(4, 5)
+	depth := vf.Size(4, 5)
 	s.Note("all sequences of length 1..%d over %d distinct calls (2 names x {Unique,Group} x 3 addresses; one name never expires, the other always does)", depth, len(alpha))
 	vf.Enum(s, func(yield func(seqCase)) {
 		idx := make([]int, depth)
